@@ -408,7 +408,11 @@ def block_aligned_chart(kind, unit=4096, shift=0, nunits=520, straddle=False):
         paylen = sum(len(ln.encode("utf-8")) + 1 for ln in pay)
         # the filler makes the unit end (the terminator of its last payload line) fall `shift` before a multiple of `unit`;
         # in the straddle variant the boundary falls inside the multi-byte run of the payload's value instead
-        target = ((pos // unit) + 2) * unit - shift
+        room = paylen + len(fill(0).encode("utf-8")) + 1 + 24
+        nxt = (pos // unit) + 1
+        if nxt * unit - shift + (16 if straddle else 0) - pos < room:
+            nxt += 1                                 # (not enough room left in this unit: the next boundary)
+        target = nxt * unit - shift
         if straddle:
             target += 16
         k = target - pos - paylen - len(fill(0).encode("utf-8")) - 1
@@ -460,13 +464,13 @@ def block_alignment_records(prop, kind, quick=True, straddle=False):
     load_impl()
     from chartparse.chart import Chart
     recs = []
-    layouts = [(4096, 520), (1000, 1100)] if not straddle else [(4096, 40)]
+    layouts = [(4096, 1040), (1000, 2200)] if not straddle else [(4096, 80), (1000, 60)]
     shifts = [0, 1, 2, 3, -1, -2] if not straddle else [0, 1, 2]
     for unit, nunits in layouts:
         for sh in shifts:
             text, expected = block_aligned_chart(kind, unit=unit, shift=sh, nunits=nunits, straddle=straddle)
-            for via in ("file", "path"):
-                if via == "path" and not os.environ.get("VERIF_TMP"):
+            for via in ("file", "path", "path-bom"):
+                if via != "file" and not os.environ.get("VERIF_TMP"):
                     continue
                 rid = f"blocks-{kind}-{unit}-{sh}-{via}" + ("-straddle" if straddle else "")
                 try:
@@ -475,7 +479,7 @@ def block_alignment_records(prop, kind, quick=True, straddle=False):
                     else:
                         p = os.path.join(os.environ["VERIF_TMP"], f"blocks-{os.getpid()}.chart")
                         with open(p, "wb") as f:
-                            f.write(text.encode("utf-8"))
+                            f.write((b"\xef\xbb\xbf" if via == "path-bom" else b"") + text.encode("utf-8"))
                         chart = Chart.from_filepath(Path(p))
                     got = observed_section(chart, kind)
                 except Exception as e:  # noqa: BLE001
